@@ -10,7 +10,7 @@ use serde_json::{json, Value};
 pub static ENGINE: Engine = Engine {
     prop: "C09",
     level: "exploration",
-    rule: "every reference-free AST with <= N nodes over a binder-heavy alphabet (names a, b, c, X used free and bound; quantifier lists [], [a], [b], [a,b], [X], [c] where c occurs nowhere else; lfp/gfp on X and on a; not, & |, if, counting) printed as text and given to the real parser under the default order and under the reversed explicit order: free_vars == reference FV(AST) listed in variable order; vars == every name of the text exactly once in variable order; raw2free / to_free_index map exactly the free variables to their position; every variable tested by eval() is free. distinct = distinct (formula text, ordering)",
+    rule: "every reference-free AST with <= N nodes over a binder-heavy alphabet (names a, b, c, X used free and bound; quantifier lists [], [a], [b], [a,b], [X], [c] where c occurs nowhere else; lfp/gfp on X and on a; not, & |, if, counting) printed as text and given to the real parser under the default order and under the reversed explicit order: free_vars == reference FV(AST) listed in variable order; vars == every name of the text exactly once in variable order; raw2free / to_free_index map exactly the free variables to their position; every variable tested by eval() is free. Plus and/or chains over 33 and 70 variables with binders around ids 31/32/n-1. distinct = distinct (formula text, ordering)",
     assumptions: &["reference FV = names with an occurrence not enclosed by a quantifier or fixed-point binder of the same name (harness/src/refl.rs)", "AST size bound; evaluation only where the reference finds all fixed points convergent"],
     max_shards: 64,
     run,
@@ -82,7 +82,8 @@ fn check(ctx: &mut Ctx, a: &Ast, text: &str, rev: bool) {
         }
     }
     // support of the answer
-    if Sem::new(&names).eval_closed(a).is_some() {
+    let evaluable = if names.len() <= 6 { Sem::new(&names).eval_closed(a).is_some() } else { !a.has_fp() };
+    if evaluable {
         match impl_eval(&p) {
             Err(m) => c.push(format!("evaluation failed: {m}")),
             Ok(res) => {
@@ -110,6 +111,7 @@ fn run(ctx: &mut Ctx) {
     let upto = if ctx.thorough() { 6 } else { 5 };
     let mut g = Gen::new(alpha());
     let mut idx = 0u64;
+    wide(ctx, &mut idx);
     for size in 1..=upto {
         let mut todo = vec![];
         let mut flush = |ctx: &mut Ctx, todo: &mut Vec<Ast>| {
@@ -133,6 +135,34 @@ fn run(ctx: &mut Ctx) {
             }
         });
         flush(ctx, &mut todo);
+    }
+}
+
+/// many variables (ids beyond 32 and 64): and/or chains with binders at positions around the
+/// machine-word boundaries; parse-level expectations only need the reference AST
+fn wide(ctx: &mut Ctx, idx: &mut u64) {
+    for n in [33usize, 70] {
+        let names: Vec<String> = (0..n).map(|i| format!("v{i}")).collect();
+        for op in [Bin::And, Bin::Or] {
+            let chain = names.iter().map(|s| Ast::var(s)).rev().reduce(|acc, v| Ast::bin(op, v, acc)).unwrap_or(Ast::True);
+            for q in [vec![0usize], vec![31], vec![32], vec![n - 1], vec![31, 32], vec![n - 1, 0], vec![32, 0, 31]] {
+                for ex in [true, false] {
+                    *idx += 1;
+                    if !ctx.mine(*idx) {
+                        continue;
+                    }
+                    // the binder comes AFTER a first conjunct that mentions every name, so the
+                    // default numbering follows the index; and once with the binder first
+                    let qa = Ast::Q(ex, q.iter().map(|i| names[*i].clone()).collect(), Box::new(chain.clone()));
+                    for a in [qa.clone(), Ast::bin(Bin::And, chain.clone(), qa)] {
+                        let text = refl::pp(&a, refl::MINIMAL);
+                        check(ctx, &a, &text, false);
+                        check(ctx, &a, &text, true);
+                        ctx.count("wide_formulas", 1);
+                    }
+                }
+            }
+        }
     }
 }
 
